@@ -50,4 +50,85 @@ theorem build_matches_every_element (bh : Bytes) (outs prevs : List Bytes) (e : 
   rw [ht]
   exact key
 
+/-- `match_any` on a built filter, for ANY list of queries (repeats, any order, elements or strangers): the
+    answer is never an error and is `true` exactly when some query hashes — under the block's key, into the
+    filter's range — onto the hashed value of some element of the contents rule. -/
+theorem build_matchAny_iff (bh : Bytes) (outs prevs qs : List Bytes) :
+    matchAnyElems bh (build bh outs prevs).1 (build bh outs prevs).2 qs =
+      .ok (decide (∃ q ∈ qs, ∃ e ∈ elements outs prevs,
+        hashToRange (keyFromBlockHash bh).1 (keyFromBlockHash bh).2 q ((elements outs prevs).length * M) =
+        hashToRange (keyFromBlockHash bh).1 (keyFromBlockHash bh).2 e ((elements outs prevs).length * M))) := by
+  unfold build matchAnyElems hashedSorted
+  simp only []
+  generalize keyFromBlockHash bh = key
+  obtain ⟨k0, k1⟩ := key
+  simp only []
+  generalize elements outs prevs = es
+  generalize hup : es.length * M = upper
+  have hs := sorted_mergeSort (es.map (hashToRange k0 k1 · upper))
+  have hperm := List.mergeSort_perm (es.map (hashToRange k0 k1 · upper)) (fun a b : Nat => decide (a ≤ b))
+  have hlen : ((es.map (hashToRange k0 k1 · upper)).mergeSort (· ≤ ·)).length = es.length := by simp
+  have hb : ∀ v ∈ (es.map (hashToRange k0 k1 · upper)).mergeSort (· ≤ ·), v < upper := by
+    intro v hv
+    obtain ⟨x, hx, rfl⟩ := List.mem_map.mp (hperm.mem_iff.mp hv)
+    have hpos : 0 < upper := by
+      rw [← hup]
+      exact Nat.mul_pos (List.length_pos_of_mem hx) (by decide)
+    exact hashToRange_lt k0 k1 x upper hpos
+  have ht := sorted_mergeSort ((qs.map (hashToRange k0 k1 · upper)).eraseDups)
+  have key := matchAny_encodeSet P upper _ _ hs hb ht
+  rw [hlen] at key
+  rw [key]
+  congr 1
+  apply decide_eq_decide.mpr
+  have hpt := List.mergeSort_perm ((qs.map (hashToRange k0 k1 · upper)).eraseDups) (fun a b : Nat => decide (a ≤ b))
+  constructor
+  · rintro ⟨x, hx1, hx2⟩
+    have h1 := List.mem_eraseDups.mp (hpt.mem_iff.mp hx1)
+    obtain ⟨q, hq, rfl⟩ := List.mem_map.mp h1
+    obtain ⟨e, he, hee⟩ := List.mem_map.mp (hperm.mem_iff.mp hx2)
+    exact ⟨q, hq, e, he, hee.symm⟩
+  · rintro ⟨q, hq, e, he, hqe⟩
+    refine ⟨hashToRange k0 k1 q upper, hpt.mem_iff.mpr (List.mem_eraseDups.mpr (List.mem_map.mpr ⟨q, hq, rfl⟩)), ?_⟩
+    rw [hqe]
+    exact hperm.mem_iff.mpr (List.mem_map.mpr ⟨e, he, rfl⟩)
+
+/-- no false negatives for ANY query list: if one of the queries is an element of the block's contents rule,
+    `match_any` answers `True`, whatever else is asked along with it. -/
+theorem build_matches_any_query (bh : Bytes) (outs prevs qs : List Bytes) (e : Bytes)
+    (hq : e ∈ qs) (he : e ∈ elements outs prevs) :
+    matchAnyElems bh (build bh outs prevs).1 (build bh outs prevs).2 qs = .ok true := by
+  rw [build_matchAny_iff]
+  congr 1
+  exact decide_eq_true ⟨e, hq, e, he, rfl⟩
+
+/-- …and a `False` answer is definitive: none of the queries is an element. -/
+theorem build_miss_is_definitive (bh : Bytes) (outs prevs qs : List Bytes)
+    (h : matchAnyElems bh (build bh outs prevs).1 (build bh outs prevs).2 qs = .ok false) :
+    ∀ q ∈ qs, q ∉ elements outs prevs := by
+  intro q hq he
+  rw [build_matches_any_query bh outs prevs qs q hq he] at h
+  cases h
+
+/-- the contents rule of BIP158 as a set: the script of every output that is neither empty nor an OP_RETURN, the
+    script of every spent previous output that is not empty; nothing else; each once. -/
+theorem elements_spec (outs prevs : List Bytes) (s : Bytes) :
+    s ∈ elements outs prevs ↔
+      (s ∈ outs ∧ s ≠ [] ∧ s.head?.map (·.toNat) ≠ some Gen.Filter.OP_RETURN) ∨ (s ∈ prevs ∧ s ≠ []) := by
+  unfold elements
+  rw [List.mem_eraseDups, List.mem_append, List.mem_filter, List.mem_filter]
+  constructor
+  · rintro (⟨h1, h2⟩ | ⟨h1, h2⟩)
+    · left
+      cases s with
+      | nil => simp at h2
+      | cons x xs => simp at h2 ⊢; exact ⟨h1, h2⟩
+    · right; exact ⟨h1, by simpa using h2⟩
+  · rintro (⟨h1, h2, h3⟩ | ⟨h1, h2⟩)
+    · left
+      cases s with
+      | nil => exact absurd rfl h2
+      | cons x xs => simp at h3 ⊢; exact ⟨h1, h3⟩
+    · right; exact ⟨h1, by simpa using h2⟩
+
 end Btc.Bip158
